@@ -93,6 +93,18 @@ pub fn synced(file: &File) {
     }
 }
 
+/// A rename is treated as durable metadata: the shadow copy moves with the file.
+pub fn renamed(from: &std::path::Path, to: &std::path::Path) {
+    if !ACTIVE.load(Ordering::Relaxed) {
+        return;
+    }
+    let guard = SHADOW.lock().unwrap();
+    let Some((root, shadow)) = guard.as_ref() else { return };
+    if let (Ok(f), Ok(t)) = (from.strip_prefix(root), to.strip_prefix(root)) {
+        let _ = std::fs::rename(shadow.join(f), shadow.join(t));
+    }
+}
+
 pub fn force_degraded_open(on: bool) {
     DEGRADED.store(on, Ordering::SeqCst);
 }
